@@ -27,6 +27,11 @@ fn count_forms(id: u32, full: bool) -> Vec<(String, Vec<Seg>)> {
             "x1-then-open".to_string(),
             vec![seg(r(0), Quant::N(1)), seg(r(1), Quant::Open)],
         ),
+        // a series whose *last* response is quantified with once()
+        (
+            "x2-then-once".to_string(),
+            vec![seg(r(0), Quant::N(2)), seg(r(1), Quant::Once)],
+        ),
     ];
     if full {
         v.push(("x1".to_string(), vec![seg(r(0), Quant::N(1))]));
@@ -45,7 +50,8 @@ fn count_forms(id: u32, full: bool) -> Vec<(String, Vec<Seg>)> {
 
 fn ordered_clauses(pos: usize, full: bool) -> Vec<(String, ClauseSpec)> {
     // 6 = the disjunctive form `(2) | (1)`: an ordered call may match a later alternative
-    let masks: &[u8] = &[7, 1, 6];
+    // 252 = a hand-written disjunctive matcher that reports the alternative it passed over
+    let masks: &[u8] = &[7, 1, 6, MASK_REPORTING_ACCEPTING_MATCHER];
     let mut out = vec![];
     for m in [M::C, M::E] {
         for mask in masks {
@@ -356,7 +362,7 @@ fn main() {
         J::obj()
             .set("ordered_clauses_max", if quick { 2 } else { 3 })
             .set("methods", "O::c, O::e (ordered), A::a (unordered)")
-            .set("predicates", "any, {0}, the disjunctive form (2) | (1)")
+            .set("predicates", "any, {0}, the disjunctive form (2) | (1), a hand-written disjunctive matcher that reports the alternative it passed over")
             .set("counts", "implicit once, n_times(0..3), chains inside a range (n_times(k).then()...)")
             .set("exploration", "every model-accepted prefix extended by every call of {c(0),c(1),e(0),e(1),a(0)}; deviating calls checked, not extended")
             .set("unordered_clause", "absent, or inserted at every position (open-ended and exactly quantified)"),
